@@ -295,8 +295,7 @@ def run(run, tier):
             res = 'CRASH %s: %s' % (type(e).__name__, str(e)[:100])
         stats['rhs_spec'] = stats.get('rhs_spec', 0) + 1
         if res:
-            found += 1
-            report(run, 'C07/rhs/%s' % p['theorem'], 'the statement of theorem %s fails on the Python right-hand sides: %s' % (p['theorem'], res),
+            found += report(run, 'C07/rhs/%s' % p['theorem'], 'the statement of theorem %s fails on the Python right-hand sides: %s' % (p['theorem'], res),
                    {'kind': 'rhs_spec', 'params': p, 'detail': res, 'also_broken': [b[0] for b in broken]})
     cases = oracle_cases(rng, tier)
     worst = 0.0
@@ -312,9 +311,8 @@ def run(run, tier):
             if kind == 'equiv' and len(samples) < 5 and 'effective' in p['b']:
                 samples.append({'equivalent_models_agree': {k: p[k] for k in ('a', 'b', 'tau', 'gamma', 'rho')} | {'degrees': sorted(d for _, d in O.graph_from_desc(p['graph']).degree())}})
             continue
-        found += 1
         key = 'C07/%s%s' % (stem, '/crash' if res.startswith('CRASH') else '')
-        report(run, key, '%s: %s' % (stem, res), {'kind': kind, 'params': p, 'detail': res, 'also_broken': [b[0] for b in broken]})
+        found += report(run, key, '%s: %s' % (stem, res), {'kind': kind, 'params': p, 'detail': res, 'also_broken': [b[0] for b in broken]})
     if broken and not found:
         for what, detail in broken:
             report(run, 'C07/%s' % what, detail + ' -- numerical oracles found no failing input of the property', {'broken': what, 'detail': detail, 'log': props.get('log', '')[-2000:]}, no_input=True)
